@@ -413,3 +413,103 @@ def slot_adjacency(ctx, rep, rule):
     bodies = an.events('BODY')
     rep.need(rule, len(bodies), 1, "bodies in the wrapper")
     rep.ok(rule, "%s: %d other suspension points examined" % (fn, n))
+
+
+# ================================================================ generic lints
+JOB_SOURCES_ATTR = ('jobs', 'required')
+JOB_SOURCES_CALL = ('entry_jobs', 'exit_jobs', 'topological_order', 'iterate_jobs', 'successors', 'predecessors',
+                    'successors_downstream', 'predecessors_upstream')
+
+
+def _yields_jobs(ctx, e):
+    """is `e` an iterable of job objects? (member set, requirements, reverse links, job queries)"""
+    if isinstance(e, ast.Attribute) and (e.attr in JOB_SOURCES_ATTR or e.attr == ctx.roles.reverse_attr):
+        return True
+    if isinstance(e, ast.Call) and isinstance(e.func, ast.Attribute) and e.func.attr in JOB_SOURCES_CALL:
+        return True
+    if isinstance(e, ast.Call) and isinstance(e.func, ast.Name) and e.func.id in ('list', 'set', 'sorted', 'tuple') \
+            and e.args:
+        return _yields_jobs(ctx, e.args[0])
+    return False
+
+
+def job_truthiness(ctx, rep, rule, funcs):
+    """a job object must never be used as a boolean: the nestable class inherits __len__ from the
+    scheduler side, so a nested scheduler is falsy exactly while it is empty"""
+    r = ctx.roles
+    has_len = any('__len__' in c.methods for n in r.nestable for c in n.mro)
+    n = 0
+    for f in funcs:
+        if f is None:
+            continue
+        jobvars = {}
+        for node in walk_local(f.node):
+            if isinstance(node, (ast.For, ast.comprehension)) and isinstance(node.target, ast.Name) \
+                    and _yields_jobs(ctx, node.iter):
+                jobvars[node.target.id] = node.iter
+        # requirement-like parameters iterated directly (requires(*requirements))
+        for node in walk_local(f.node):
+            if isinstance(node, ast.For) and isinstance(node.target, ast.Name) and isinstance(node.iter, ast.Name) \
+                    and node.iter.id in ('requirements', 'requirement', 'jobs', 'sequences_or_jobs', 'starts', 'ends'):
+                jobvars[node.target.id] = node.iter
+
+        def boolean_uses():
+            for node in walk_local(f.node):
+                if isinstance(node, (ast.If, ast.While, ast.IfExp)):
+                    yield node.test
+                elif isinstance(node, ast.BoolOp):
+                    for v in node.values:
+                        yield v
+                elif isinstance(node, ast.UnaryOp) and isinstance(node.op, ast.Not):
+                    yield node.operand
+                elif isinstance(node, ast.comprehension):
+                    for c in node.ifs:
+                        yield c
+                elif isinstance(node, ast.Call) and isinstance(node.func, ast.Name) and node.func.id in ('any', 'all') \
+                        and node.args:
+                    a = node.args[0]
+                    if _yields_jobs(ctx, a):
+                        yield a
+                    if isinstance(a, (ast.GeneratorExp, ast.ListComp, ast.SetComp)):
+                        yield a.elt
+        for t in boolean_uses():
+            while isinstance(t, ast.UnaryOp) and isinstance(t.op, ast.Not):
+                t = t.operand
+            bad = None
+            if isinstance(t, ast.Name) and t.id in jobvars:
+                bad = "`%s` (an element of `%s`)" % (t.id, src(jobvars[t.id]))
+            elif _yields_jobs(ctx, t) and isinstance(getattr(t, '_parent', None), ast.Call):
+                bad = "`%s(%s)`" % (getattr(t._parent.func, 'id', '?'), src(t))
+            if bad:
+                n += 1
+                rep.check(not has_len, rule, "%s:%d job used as a boolean" % (f.module.relpath, t.lineno), f.qualname,
+                          "%s is tested for truthiness" % bad,
+                          "a nested scheduler is falsy while it is empty (it inherits __len__): an empty nested "
+                          "scheduler is skipped / treated as absent here")
+    rep.ok(rule, "no job object is used as a boolean in %d functions" % len([f for f in funcs if f]))
+
+
+MUTABLE_CALLS = ('set', 'list', 'dict', 'BestSet', 'defaultdict', 'OrderedDict', 'deque')
+
+
+def no_state_across_calls(ctx, rep, rule, funcs):
+    """the answer of a query/transformation depends on the current graph only: no mutable default
+    argument (state shared by every call), no module-level cache written by the function"""
+    n = 0
+    for f in funcs:
+        if f is None:
+            continue
+        a = f.node.args
+        for d in list(a.defaults) + [x for x in a.kw_defaults if x is not None]:
+            mutable = isinstance(d, (ast.List, ast.Dict, ast.Set)) or (
+                isinstance(d, ast.Call) and isinstance(d.func, ast.Name) and d.func.id in MUTABLE_CALLS)
+            n += 1
+            rep.check(not mutable, rule, "%s:%d default argument" % (f.module.relpath, d.lineno), f.qualname,
+                      "mutable default argument `%s` in %s" % (src(d), f.qualname),
+                      "the default object is shared by every call: what one call records (e.g. 'already visited') "
+                      "silently changes the result of the next one")
+        for node in walk_local(f.node):
+            if isinstance(node, ast.Global):
+                rep.fail(rule, "%s:%d global state" % (f.module.relpath, node.lineno), f.qualname,
+                         "`%s`" % src(node), "the result depends on what previous calls stored in a global")
+    rep.ok(rule, "%d functions: no mutable default, no global" % len([f for f in funcs if f]))
